@@ -7,6 +7,7 @@ import (
 
 	"github.com/indexsupply/shovel/jrpc2"
 	"github.com/indexsupply/shovel/shovel/config"
+	"github.com/indexsupply/shovel/wpg"
 
 	"verifharness/core"
 	"verifharness/fakepg"
@@ -51,6 +52,12 @@ func runC02(e *core.Env) error {
 		}
 		if h%4 == 2 && rr.Bool() {
 			ig1 = traceIG("ig1", "t1")
+		}
+		if h%3 == 1 {
+			// the table spells out the bookkeeping columns itself (the block list does not name them): they
+			// must still be filled - the reorg deletion is keyed on them
+			ig1.Table.Columns = append(ig1.Table.Columns, wpg.Column{Name: "block_num", Type: "numeric"}, wpg.Column{Name: "src_name", Type: "text"}, wpg.Column{Name: "ig_name", Type: "text"})
+			w.tags["table-declares-bookkeeping-columns"]++
 		}
 		root := config.Root{Integrations: []config.Integration{ig1}}
 		if err := w.setupRoot(&root); err != nil {
